@@ -258,6 +258,17 @@ ROUND8 = {
     "C10": " R-C10-LOOKUP: table entries are read only for candidates found in the table and every hit is verified.",
     "C16": " GetHighestSeverity hands back the maximum only if it was raised above a start value below every severity, else None.",
 }
+ROUND9 = {
+    "C06": " The subgroup test rests on Multiply returning the exact multiple n * p (row shared with C11).",
+    "C09": " The pairs of an issuer come from that issuer's own signatures: index map and indexed list are the same per-curve sub-batch (rows shared with C08).",
+    "C12": " R-C12-LADDER also evaluates the block-size and Q terms Universal hands to UniversalImpl at every bound of the NIST table (largest admissible L); R-C12-UNIVERSAL: K is the number of blocks left after the Q initialisation blocks; R-C12-CONSIST: the rank test uses disjoint consecutive groups of r rows; R-C12-CYCLES: the digit loop of the excursion tests (count once inside the band, close and renew the cycle at zero, last cycle appended), decided by evaluating the branch conditions on a grid of new states; R-C12-RANKDP: the column-by-column recurrence of the rank distribution and the shape of its result; R-C12-CUSUM: each extremum is exact (loop value only where non-zero, fall-back only where it is 0); names that resolve nowhere (NameError) are reported by R-C12-DEFINED.",
+    "C14": " Closed forms that leave the provable shape are evaluated with exact fractions (2 * 4^(m-1) at m = 0 is 1/2, which int() truncates).",
+    "C17": " R-C17-BYVALUE also carries the product / remainder tree rows (whether two moduli meet does not depend on the batch size).",
+    "C18": " R-C18-NULL: the optional result of InverseSqrt2exp is consumed untested only where n % 8 == 1 and k >= 3 are known; R-C18-ALIGN also carries the index maps of the per-curve ECDSA checks; R-C18-DEFINED reports names that resolve neither locally, in the module nor in the builtins.",
+    "C19": " R-C19-LINALG: a row moved away from a zero pivot is re-inserted at the last active position (bound - 1).",
+}
+for _pid, _extra in ROUND9.items():
+  ROUND8[_pid] = ROUND8.get(_pid, "") + _extra
 for _pid, _extra in ROUND8.items():
   ROUND7[_pid] = ROUND7.get(_pid, "") + _extra
 for _pid, _extra in ROUND7.items():
